@@ -4,6 +4,7 @@ CONSTANTS
   NWrites = 5
   NReads = 2
   SizedOutsideLock = FALSE
+  ShutdownInline = FALSE
   ClientGuarded = TRUE
   Part = "alerts"
 INVARIANTS NoIndexPanic NoTear
